@@ -61,6 +61,7 @@ def run(ctx):
             ctx.break_tie('correspondence', 'c01_' + lane,
                           "model and implementation disagree on %s" % dict(
                               estimator=rec.get('estimator'), L=rec['L'].tolist(), pairs=rec['pts'].tolist()))
+  mc.container_lane(ctx, 12 if thorough else 3, 'containers')
   # the property oracle itself, on the implementation (defence in depth; also the search for a replay)
   # points named by indicators into a preprocessor that holds them in a narrow / unsigned integer type
   import warnings
